@@ -76,6 +76,7 @@ class SpecDB:
         self.axioms: list = []                   # (name, [ (var,type) ], expr) assumed facts about ufuns
         self.extern_classes: dict[str, dict] = {}  # external class -> {'bases': [...]}
         self.findings: list = []
+        self.meta: dict[str, dict] = {}          # property -> {'not_decided': [...], 'assumptions': [...], 'bounded': [...]}
 
     def contract(self, **kw) -> Contract:
         c = Contract(**kw)
@@ -104,6 +105,12 @@ class SpecDB:
 
     def axiom(self, name: str, vars_: list, expr: str):
         self.axioms.append((name, vars_, expr))
+
+    def prop_meta(self, prop: str, not_decided=(), assumptions=(), bounded=()):
+        m = self.meta.setdefault(prop, {"not_decided": [], "assumptions": [], "bounded": []})
+        m["not_decided"] += list(not_decided)
+        m["assumptions"] += list(assumptions)
+        m["bounded"] += list(bounded)
 
     def lookup(self, name: str) -> Contract | None:
         return self.contracts.get(name) or self.by_short.get(name)
